@@ -71,8 +71,10 @@ def plan(tier, seed):
             shards.append(dict(
                 # (16 burner threads with 80 programs at once starved the clock threads
                 # of the interpreter lock: not one batch ended within the shard's time)
-                name=f'rt{i}', mode='rt', kind='rt', secs=240, batch=[20, 40, 60][i % 3],
-                p_yield=[0.0, 0.02, 0.1, 0.2][i % 4], burners=[0, 4, 8][i % 3],
+                # (and with 10-20 % yield injection on top at most 4 burners / 40 programs)
+                name=f'rt{i}', mode='rt', kind='rt', secs=240,
+                batch=[20, 40, 60 if i % 4 < 2 else 40][i % 3],
+                p_yield=[0.0, 0.02, 0.1, 0.2][i % 4], burners=[0, 4, 8 if i % 4 < 2 else 4][i % 3],
                 oversleep=i % 2 == 0, slow=i % 3 != 1, hard_timeout=700))
         for p, (f, n) in enumerate(split(480000, 6)):
             shards.append(dict(name=f'nrt{p}', mode='nrt', kind='nrt', first_case=f,
@@ -259,6 +261,17 @@ def run_rt(spec, acc):
                 # from this plain thread, while the clock threads are busy with
                 # the programs started before: play(), or sched(delta) whose
                 # base is this thread's time = physical now
+                if time.time() > t_end + 90:
+                    # the shard's time is long over and the clocks are still busy
+                    # with the programs started so far (each start waits for the
+                    # library lock): the rest of the batch is not started
+                    acc.count('rt_programs_not_started_shard_out_of_time')
+                    r.skipped = True
+                    with lock:
+                        left[0] -= 1
+                        if left[0] == 0:
+                            done_ev.set()
+                    continue
                 if k % 2:
                     r.start(delta=rng.choice([0, 0, 0.001, 0.004, 0.02]))
                 else:
@@ -320,6 +333,8 @@ def run_rt(spec, acc):
                                        'k': j + 1, 'expected': exp, 'observed': o})
                         break
             for r, prog, fin in snap:
+                if getattr(r, 'skipped', False):
+                    continue
                 nt, feats = nontrivial(prog)
                 acc.case(h64(json.dumps(prog, sort_keys=True)), nontrivial=nt)
                 if fin:
